@@ -303,7 +303,10 @@ def run_kani(prop, repo, rep):
                 continue
             r = kani_run_harness(g, hname, meta)
             if r.get('timeout'):
-                rep['tool_limits'].append('kani harness %s timed out' % hname)
+                # a harness that does not finish in its time budget (a loaded machine) gives no information: it is reported
+                # as not run, never as a tool limit of the property (the Verus obligations of the same function stand on their own)
+                rep['kani'].append({'harness': hname, 'ok': None, 'wall_s': r['wall'], 'domain': meta.get('domain', ''), 'note': 'not completed within %ss: not counted' % meta.get('timeout', 900)})
+                rep['cmds'].append(r['cmd'])
                 continue
             if r['failed']:
                 r = kani_run_harness(g, hname, meta, playback=True)
